@@ -1367,3 +1367,82 @@ def t_localize( ctx ):
     if n < 1 and not res.findings:
         raise AnalysisError( 'datetime_from_string: localize site not found' )
     return res
+
+
+@rule( 'T-RENDER', props=( 'C17', ), floor=6 )
+def t_render( ctx ):
+    """timestamp.render / parse: the seconds and the fraction are both derived from ONE value rounded to the requested digits; the fraction is
+    the last digits+1 characters of its fixed-point rendering; a parsed fraction is right-padded to microseconds; number_from_datetime adds
+    the microseconds with true division"""
+    res = Result( 'T-RENDER' )
+    src = ctx.src( TIMES )
+    fn = src.get( 'timestamp.render' )
+    M = Matcher()
+    dt = M.find( fn, '_dt = self.datetime_from_number( _value, tzinfo=tzinfo )' )
+    if dt is None or not isinstance( M.b['_value'], ast.Name ):
+        res.bad( src, fn, 'render: datetime of the value', 'the calendar fields must be computed by datetime_from_number from the (rounded) value in the requested zone' )
+        return res
+    VALUE = M.name( '_value' )
+    defs = [ s for s in walk_no_nested( fn ) if isinstance( s, ast.Assign ) and dotted( s.targets[0] ) == VALUE ]
+    R = Matcher()
+    if len( defs ) == 1 and ( R.m( defs[0].value, 'round( self.value, _sub ) if _sub else self.value' ) or R.m( defs[0].value, 'round( self.value, _sub )' )) and isinstance( R.b['_sub'], ast.Name ):
+        res.ok( src, defs[0], 'the value is rounded to the requested sub-second digits BEFORE any formatting (a fraction that rounds up carries into the seconds)' )
+        SUB = R.name( '_sub' )
+    else:
+        res.bad( src, defs[0] if defs else fn, 'rounded value: %s' % [ norm_text( d.value ) for d in defs ],
+                 'the value must be rounded to the requested digits once, before the calendar fields and the fraction are derived: otherwise x.9996 renders as second x with fraction .000' )
+        return res
+    res.ok( src, dt, 'calendar fields come from the rounded value' )
+    # fraction from the same rounded value
+    frac = [ s for s in ast.walk( fn ) if isinstance( s, ast.AugAssign ) and isinstance( s.op, ast.Add ) and any( isinstance( c, ast.BinOp ) and isinstance( c.op, ast.Mod ) and try_fold( c.left ) == '%.*f' for c in ast.walk( s.value )) ]
+    if len( frac ) != 1:
+        res.bad( src, fn, 'render: fraction', 'the fraction must be appended from the fixed-point rendering of the rounded value' )
+        return res
+    fm = pmatch( frac[0].value, "( '%%.*f' %% ( %s, %s ))[-%s-1:]" % ( SUB, VALUE, SUB )) or pmatch( frac[0].value, "( '%%.*f' %% ( %s, %s ))[-( %s + 1 ):]" % ( SUB, VALUE, SUB )) \
+        or pmatch( frac[0].value, "( '%%.*f' %% ( %s, %s ))[-1 - %s:]" % ( SUB, VALUE, SUB ))
+    if fm is not None:
+        res.ok( src, frac[0], "fraction = last digits+1 characters ( '.ddd' ) of '%.*f' % ( digits, rounded value )" )
+    else:
+        used = names_in( frac[0].value ) | { d for d in attrs_in( frac[0].value ) }
+        why = 'the fraction is taken from the UNROUNDED value while the seconds come from the rounded one' if 'value' in attrs_in( frac[0].value ) and VALUE not in names_in( frac[0].value ) else \
+              'the fraction must be the last digits+1 characters of the fixed-point rendering of the SAME rounded value the seconds come from'
+        res.bad( src, frac[0], frac[0].value, why )
+    g = src.parent.get( frac[0] )
+    if isinstance( g, ast.If ) and pmatch( g.test, SUB ) is not None:
+        res.ok( src, g, 'no fraction when 0 digits are requested' )
+    else:
+        res.bad( src, frac[0], 'fraction guard', 'the fraction is appended only when sub-second digits are requested' )
+    # requested digits: default precision, else int( ms ), 0..6
+    sd = [ s for s in walk_no_nested( fn ) if isinstance( s, ast.Assign ) and dotted( s.targets[0] ) == SUB ]
+    rng = [ a for a in walk_no_nested( fn ) if isinstance( a, ast.Assert ) and ( pmatch( a.test, '0 <= %s <= 6' % SUB ) is not None ) ]
+    if sd and pmatch( sd[0].value, 'self._precision if ms is True else int( ms ) if ms else 0' ) is not None and rng:
+        res.ok( src, sd[0], 'digits = _precision by default, int( ms ) when given, 0 when falsy; asserted within 0..6 (microsecond resolution of datetime)' )
+    else:
+        res.bad( src, sd[0] if sd else fn, 'requested digits', 'digits must default to _precision and be limited to 0..6' )
+    # ---- parse side
+    ps = src.get( 'timestamp.datetime_from_string' )
+    PM = Matcher()
+    PM.find( ps, '_terms = str( s ).translate( cls._timeseps ).split()' )
+    TERMS = PM.name( '_terms' ) or 'terms'
+    pad = [ s for s in ast.walk( ps ) if isinstance( s, ast.AugAssign ) and pmatch( s, "%s[6] += '0' * ( 6 - len( %s[6] ))" % ( TERMS, TERMS )) is not None ]
+    pg = [ i for i in ast.walk( ps ) if isinstance( i, ast.If ) and pmatch( i.test, 'len( %s ) == 7' % TERMS ) is not None ]
+    if pad and pg and any( pad[0] is x for x in ast.walk( pg[0] )):
+        res.ok( src, pad[0], 'a parsed fraction is right-padded with zeros to 6 digits (".5" = 500000 us, not 5 us)' )
+    else:
+        res.bad( src, ps, 'fraction parsing', 'the fractional field must be right-padded to microseconds before int()' )
+    nd = src.get( 'timestamp.number_from_datetime' )
+    r = [ x for x in nd.body if isinstance( x, ast.Return ) ]
+    fut = any( isinstance( n, ast.ImportFrom ) and n.module == '__future__' and any( a.name == 'division' for a in n.names ) for n in src.tree.body )
+    if r and ( pmatch( r[0].value, 'calendar.timegm( dt.utctimetuple() ) + dt.microsecond / 1000000' ) is not None and fut
+               or pmatch( r[0].value, 'calendar.timegm( dt.utctimetuple() ) + dt.microsecond / 1000000.0' ) is not None
+               or pmatch( r[0].value, 'calendar.timegm( dt.utctimetuple() ) + dt.microsecond / 1e6' ) is not None ):
+        res.ok( src, r[0], 'number = timegm( UTC tuple ) + microsecond / 10**6 (true division)' )
+    else:
+        res.bad( src, r[0] if r else nd, r[0].value if r else 'return', 'the UNIX value must be timegm of the UTC time tuple plus the microseconds as a true fraction' )
+    fd = src.get( 'timestamp.datetime_from_number' )
+    fr = [ x for x in ast.walk( fd ) if isinstance( x, ast.Return ) and x.value is not None ]
+    if fr and pmatch( fr[0].value, 'datetime.datetime.fromtimestamp( n, tz=tzinfo )' ) is not None:
+        res.ok( src, fr[0], 'datetime = fromtimestamp( n, tz=zone ): an instant has exactly one rendering per zone' )
+    else:
+        res.bad( src, fd, 'datetime_from_number', 'an instant must be converted with fromtimestamp( n, tz=zone )' )
+    return res
